@@ -2,12 +2,13 @@
    case:         (period (op ...))      op = (0 es) AddElementaryStream   (1 pid) RemoveElementaryStream
                                              (2 pid) SetPCRPID            (3) WriteTables
                                              (4 muxerdata) WriteData      (5 packet) WritePacket
-   observation:  one entry per call: (code n bytes state)
+   observation:  one entry per call: (code n bytes state writes)
                  code  = -1 ok, the error code of Base/Iter.v, or -2 for a panic
                  n     = the int the call returned (0 for calls that return only an error, and for a panic)
                  bytes = what the writer accepted during the call
                  state = VerifState() after the call: (patCC pmtCC patVersion pmtVersion pmUpdated pmtUpdated nextPID
-                         retransmitCounter retransmitPeriod (esPIDs, increasing) (esCCs) (pmtPIDs, insertion order) pcrPID) *)
+                         retransmitCounter retransmitPeriod (esPIDs, increasing) (esCCs) (pmtPIDs, insertion order) pcrPID)
+                 writes = the length of every io.Writer.Write call the call makes, in order (concat of mo_groups) *)
 From Coq Require Import ZArith List.
 Require Import Base.Tok Base.Iter Base.Wr Gen.Types Gen.Preds Model.Muxer Extract.RunBase.
 Import ListNotations.
@@ -49,7 +50,8 @@ Definition tok_of_call (s : mstate) (o : mout) : tok :=
   TL [TI (code_of_res (mo_res o));
       TI (match mo_res o with Panic => 0 | _ => mo_n o end);
       TB (mout_bytes o);
-      tok_of_mstate s].
+      tok_of_mstate s;
+      TL (map (fun c => TI (Z.of_nat (length c))) (concat (mo_groups o)))].
 
 Fixpoint run_ops (s : mstate) (ops : list mop) : list tok :=
   match ops with
